@@ -123,6 +123,7 @@ func rulesC01(c *Ctx, r *Report) {
 		fmt.Sprintf("lines are Sequence[i : min(i+%d, len)] for i = 0, %d, … < len, each written as \"%%s\\n\"; MarshalText's length formula uses the same %d (≤ 80)", step, step, step),
 		fmt.Sprintf("wrapping is inconsistent: starts at 0: %v, step %d, window width %d (want equal, ≤ 80), loop bound %s (want %s), line format %q (want \"%%s\\n\"), MarshalText divides by %d", okInit, step, width, bound, seqLen, *line.format, mtC))
 	rulesPassAllFor(c, r, "formats/fasta", 3)
+	rulesNoBufferedPkg(c, r, "formats/fasta")
 	rulesFastaAutomaton(c, r)
 }
 
